@@ -76,6 +76,27 @@ def impl_oracle(c):
     for s, l in seen.items():
         if len(l) != 2 or l[0][0] != "connect" or l[1][0] != "disconnect" or l[0][1] != l[1][1]:
             out.append(("callbacks-unpaired", "session %s has notifications %s" % (s, l)))
+    if c["stream"] == "race":
+        out = [x for x in out if x[0] != "callbacks-unpaired"]
+        for o in c.get("race", []):
+            if o.get("hang"):
+                out.append(("hang", "no progress within 10 s: %s" % o["hang"]))
+                continue
+            if o.get("after") != "new":
+                out.append(("old-end-unregistered-new",
+                            "connection #1 ended on its own (%s) while #2 connected %d us later; after both "
+                            "settled the name resolves to '%s' although #2 is connected%s"
+                            % (o["how"], o["offset_us"], o.get("after"), " and answers" if o.get("new_alive") else "")))
+            if o.get("final") != "none":
+                out.append(("ended-still-registered",
+                            "after #2 ended as well the name still resolves (%s)" % o.get("final")))
+            per = {}
+            for x in o.get("notes", []):
+                per.setdefault(x["s"], []).append((x["k"], x["n"]))
+            for sv, l in per.items():
+                if len(l) != 2 or l[0][0] != "connect" or l[1][0] != "disconnect" or l[0][1] != l[1][1]:
+                    out.append(("callbacks-unpaired", "session %s has notifications %s" % (sv, l)))
+        return out
     if c["stream"] == "free":
         if c.get("looks") and any(x != -1 for x in c["looks"][-1]):
             out.append(("ended-still-registered", "a name still resolves after every endpoint has ended"))
@@ -135,7 +156,13 @@ def run(ck):
         cases = rpc_common.run_script(ck, binp, [replayed])
         ck.log("replaying %s: %d case(s)" % (ck.replay, len(cases)))
     elif binp:
-        rc, out, err = vlib.sh2([binp, "-seed", str(ck.seed), "-n", str(n), "-free", str(nfree)], timeout=3000)
+        # the race stream always gets a small dose; when an obligation on the source no longer checks
+        # (the code changed shape) it is the search for a concrete failing schedule and gets a big one
+        nrace = 3 if not ck.thorough else 40
+        if ck.broken:
+            nrace = 40
+        rc, out, err = vlib.sh2([binp, "-seed", str(ck.seed), "-n", str(n), "-free", str(nfree),
+                                 "-race", str(nrace)], timeout=3000)
         if rc != 0:
             ck.broken.append({"what": "harness run failed", "detail": err[-1500:]})
         for line in out.splitlines():
@@ -144,17 +171,22 @@ def run(ck):
 
     ops = {}
     shrunk = set()
+    ck.coverage["cases_skipped_after_repeated_hangs"] = len([c for c in cases if c.get("skipped")])
+    cases = [c for c in cases if not c.get("skipped")]
+    ck.coverage["race_rounds"] = sum(len(c.get("race", [])) for c in cases)
     for c in cases:
         trivial = c["stream"] == "forced" and len([s for s in c["steps"] if s["op"] == "connect"]) < 2
         # (the key does not depend on how concurrent threads happened to interleave)
-        key = [c["steps"], c.get("looks")] if c["stream"] == "forced" else [c["i"], len(c.get("notes", []))]
+        key = [c["steps"], c.get("looks")] if c["stream"] == "forced" else [c["stream"], c["i"], len(c.get("notes", []))]
+        if c["stream"] == "race":
+            key = [c["i"], [(o["how"], o["offset_us"]) for o in c.get("race", [])]]
         ck.count(c["stream"], key=json.dumps(key), trivial=trivial)
         for s in (c["steps"] if c["stream"] == "forced" else []):
             ops[s["op"]] = ops.get(s["op"], 0) + 1
         for key, why in impl_oracle(c):
             small = c
             if binp and replayed is None and c["stream"] == "forced" and key not in shrunk and len(shrunk) < 3 \
-                    and key != "hang":
+                    and key != "hang" and not c.get("hang"):
                 shrunk.add(key)
                 small = rpc_common.shrink(ck, binp, c, key, impl_oracle)
             ck.violation("impl:%s" % key, why,
@@ -203,7 +235,10 @@ def run(ck):
              "OnConnect), close, sever, release} over 1-2 names and up to 7 connections, every server thread held "
              "at the schedule point after serve() so that unmap order is chosen by the schedule, lookups of every "
              "name after every step and concurrently during steps; plus free-running concurrent connect/close "
-             "loops (final state and notification log only). A forced schedule is non-trivial if it has >= 2 "
+             "loops (final state and notification log only); plus a race stream: rounds of '#1 ends on its own "
+             "while #2 connects 0-4 ms after #1 stopped serving' with a logger that takes 2 ms per line (widening "
+             "every window that contains a log statement), the name must resolve to #2 afterwards (30 rounds; 400 "
+             "when a source obligation is broken). A forced schedule is non-trivial if it has >= 2 "
              "connects; distinct = distinct (schedule, lookups after every step)",
         assumptions=["OnConnect/OnDisconnect are the user's callbacks; the session value is whatever OnConnect returns",
                      "a failed websocket upgrade registers nothing (not modelled as a thread)"])
